@@ -169,6 +169,12 @@ def forms_of(fn):
     for n in dwalk(fn.hir):
         if n.get("k") == "Match" and n.get("src", "").startswith("Normal"):
             sc = peel(n["scrut"])
+            if sc.get("k") == "Path" and sc.get("res") == "local":
+                # `let n = labels.len(); match n {..}`: look through the binding
+                for st in dwalk(fn.hir):
+                    if st.get("k") in ("Let", "Local") and isinstance(st.get("pat"), dict) and st["pat"].get("k") == "Bind" and st["pat"].get("name") == sc.get("name") and st.get("init"):
+                        sc = peel(st["init"])
+                        break
             if sc.get("k") == "MethodCall" and sc.get("name") == "len" and "label" in repr(field_chain(sc["recv"])).lower():
                 ms.append(n)
     if len(ms) != 1:
@@ -428,6 +434,27 @@ def check_key_constructions(chk, rule, m):
                 chk.ob(rule, where, ok, "pre-hashed by the shared routine over exactly the name and labels it stores" if ok else f"stored hash is {sym_str(hv)[:100]} — not the hash of the (name, labels) this key is built with", loc)
             else:
                 chk.ob(rule, where, False, f"hashed/hash fields are taken from {sym_str(hashed)[:70]} / {sym_str(hashv)[:70]}: a key built from another key's cached hash keeps a stale hash when its labels differ", loc)
+    # a Key's identity fields are never modified in place (that would leave the memoised hash behind)
+    touched = []
+    for f in m.fns:
+        if "::tests::" in f.path or f.j.get("derived"):
+            continue
+        for i, k, st in f.body.stmts():
+            if st["k"] != "assign":
+                continue
+            places = [(st["p"], True)]
+            rv = st["rv"]
+            if rv["k"] in ("ref", "rawptr") and rv.get("mut"):
+                places.append((rv["p"], True))
+            for pl, _w in places:
+                for e in pl.get("pr") or []:
+                    if isinstance(e, dict) and e.get("f") in (KF["name"], KF["labels"]) and strip_generics(e.get("of", "")) == KEY:
+                        touched.append((f, st.get("ln")))
+        for blk_i in range(f.body.n):
+            t = f.body.term(blk_i)
+            if t["k"] == "drop" and any(isinstance(e, dict) and e.get("f") in (KF["name"], KF["labels"]) and strip_generics(e.get("of", "")) == KEY for e in (t["p"].get("pr") or [])) and not f.body.blocks[blk_i].get("cleanup"):
+                pass  # field-wise drop of a moved-from key (into_parts): not a modification
+    chk.ob(rule, f"{KEY} [identity fields never modified in place]", not touched, "name and labels are only ever set by constructing a Key" if not touched else f"{sorted({x[0].path for x in touched})} write or mutably borrow a Key's name/labels in place: the memoised (hashed, hash) pair is not invalidated, so the key keeps the hash of its old identity", f"{touched[0][0].file}:{touched[0][1]}" if touched else "")
     return n_aggs
 
 
